@@ -870,7 +870,11 @@ func (x *bitCtx) checkOperators() {
 		if fn == nil {
 			continue
 		}
-		noInl := func(callee *ssa.Function, depth int) bool { return false }
+		// the word methods stay calls (they are the events looked for); plain functions (NewBit1024) are walked, so
+		// that `for i := range NewBit1024()` has its constant bound
+		noInl := func(callee *ssa.Function, depth int) bool {
+			return callee.Signature.Recv() == nil && callee.Pkg == fn.Pkg && depth < 3
+		}
 		traces, _ := c.Trace(fn, TraceConfig{Inline: noInl})
 		ok, seen := true, false
 		bound := false
@@ -900,6 +904,14 @@ func (x *bitCtx) checkOperators() {
 				}
 				if op.name == "Equal" && e.Kind == EvBranch && e.Gen && e.Cond.Kind == KBin && (e.Cond.Op == token.NEQ || e.Cond.Op == token.EQL) {
 					seen = true
+				}
+			}
+			if op.name == "Equal" {
+				// the comparison kept in a flag that the loop condition tests (`for i := 0; same && i < 16; i++`)
+				for _, ps := range t.Cut {
+					if ps.Next != nil && ps.Next.Kind == KBin && (ps.Next.Op == token.NEQ || ps.Next.Op == token.EQL) {
+						seen = true
+					}
 				}
 			}
 		}
@@ -980,6 +992,16 @@ func (c *Ctx) checkDirectionDispatch(rule string, specs []dispatchSpec) {
 		traces, _ := c.Trace(fn, TraceConfig{Inline: noInl})
 		ok, n := true, 0
 		revParam := fn.Params[len(fn.Params)-1]
+		boolFlag := false
+		if bt, isB := revParam.Type().Underlying().(*types.Basic); isB && bt.Kind() == types.Bool {
+			boolFlag = true
+		}
+		if !boolFlag {
+			// the direction is a named option (ascending / descending) rather than a positional bool: the pairing is
+			// judged end to end below, from each exported wrapper to the iterator it reaches
+			traces = nil
+			n = -1
+		}
 		for _, t := range traces {
 			facts := t.factsBefore(len(t.Events))
 			rev, known := boolFact(facts, &Sym{Kind: KParam, Ref: revParam, Typ: revParam.Type()})
@@ -994,7 +1016,9 @@ func (c *Ctx) checkDirectionDispatch(rule string, specs []dispatchSpec) {
 				}
 			}
 		}
-		if ok && n > 0 {
+		if n < 0 {
+			c.holds(rule, name, fn.Pos(), "direction option: judged from the exported wrappers")
+		} else if ok && n > 0 {
 			c.holds(rule, name, fn.Pos(), "reverse=true -> R-iterator, reverse=false -> forward iterator")
 		} else if n == 0 {
 			c.undecided(rule, name, fn.Pos(), "no iterator call found")
@@ -1016,20 +1040,42 @@ func (c *Ctx) checkDirectionDispatch(rule string, specs []dispatchSpec) {
 			if wf == nil {
 				continue
 			}
-			ts, _ := c.Trace(wf, TraceConfig{Inline: noInl})
-			good := len(ts) > 0
-			for _, t := range ts {
-				found := false
-				for _, e := range t.Events {
-					if e.Kind == EvCall && e.Callee == fn {
-						found = true
-						b, isB := e.Args[len(e.Args)-1].boolConst()
-						if !isB || b != w.rev {
-							good = false
+			var ts []*Trace
+			good := true
+			if boolFlag {
+				ts, _ = c.Trace(wf, TraceConfig{Inline: noInl})
+				good = len(ts) > 0
+				for _, t := range ts {
+					found := false
+					for _, e := range t.Events {
+						if e.Kind == EvCall && e.Callee == fn {
+							found = true
+							b, isB := e.Args[len(e.Args)-1].boolConst()
+							if !isB || b != w.rev {
+								good = false
+							}
+						}
+					}
+					if !found {
+						good = false
+					}
+				}
+			} else {
+				// end to end: with the helper expanded, GetN* reaches only forward iterators and RGetN* only R-iterators
+				onlyHelper := func(callee *ssa.Function, depth int) bool { return callee == fn }
+				ts, _ = c.Trace(wf, TraceConfig{Inline: onlyHelper})
+				reached := 0
+				for _, t := range ts {
+					for _, e := range t.Events {
+						if e.Kind == EvCall && e.Method != nil && strings.Contains(e.Method.Name(), "IterAs") {
+							reached++
+							if strings.HasPrefix(e.Method.Name(), "R") != w.rev {
+								good = false
+							}
 						}
 					}
 				}
-				if !found {
+				if reached == 0 {
 					good = false
 				}
 			}
